@@ -1,6 +1,7 @@
 package c02
 
 import (
+	"os"
 	"fmt"
 	"strings"
 	"sync/atomic"
@@ -178,9 +179,13 @@ func nestedStuck(tr *sched.Tracer, pool interface{}, waiter uint64) bool {
 	inWait := func(g uint64) bool {
 		return sched.BlockedIn(d, g, waitStates, "AddEventAndWait") && strings.HasSuffix(sched.InnermostNonRuntime(d, g), ".AddEventAndWait")
 	}
+	dbg := os.Getenv("VH_DEBUG") != ""
 	idle := 0
 	for g := range v.LiveWorkers {
 		p := v.LastPoint[g]
+		if dbg {
+			fmt.Fprintf(os.Stderr, "worker g%d last=%s state=%s inner=%s\n", g, p, d[g].State, sched.InnermostNonRuntime(d, g))
+		}
 		if (p == "pool.idle.locked" || p == "pool.idle.beforewait") && d[g].State == "sync.Cond.Wait" {
 			idle++
 			continue
@@ -189,6 +194,9 @@ func nestedStuck(tr *sched.Tracer, pool interface{}, waiter uint64) bool {
 			continue
 		}
 		return false
+	}
+	if dbg {
+		fmt.Fprintf(os.Stderr, "waiter g%d state=%s inner=%s nq=%d idle=%d canstep=%v\n", waiter, d[waiter].State, sched.InnermostNonRuntime(d, waiter), nq, idle, sched.CanStep(d, sched.GoID()))
 	}
 	if waiter == 0 || !inWait(waiter) {
 		return false
